@@ -47,7 +47,7 @@ theorem failOf_ne_ok {α} (w : Walk α) (x : Root × Int) : failOf w ≠ .ok x :
 
 /-- inversion of a successful copy -/
 theorem opCopy_ok_inv {o r acc op r' acc'} (h : opCopy o r acc op = .ok (r', acc')) :
-    ∃ frm r1 r2 val, op.frm = some frm ∧ afterW r (copySource o r frm) = some r1 ∧
+    ∃ frm r1 r2 val, op.frm = some frm ∧ afterW r (copyFirst o r frm) = some r1 ∧
       afterW r1 (destWalk o r1 op.path) = some r2 ∧ copySrc o r2 frm = .ok val ∧
       ¬ (frm = [] ∧ isDocNil r2.con = true) ∧
       ¬ (o.limit > 0 ∧ acc + ((deepCopy o.esc val).2 : Int) > o.limit) ∧
